@@ -5,6 +5,7 @@ Require Adj XorConv AdjGen TableAdj GenProofs_RevMeas GenProofs_EaNoise.
 Require Import Stab Act Spec SpecProofs Gen_GateTable Gen_RevTrack GenProofs_RevTrack.
 Require GenProofs_TabMeas.
 Require Gen_AddError GenProofs_AddError.
+Require Mpp MppRev.
 
 (* (1) Tie G: every unitary undo_* routine of the reverse tracker (translated from sparse_rev_frame_tracker.cc), applied per
        detector to (d in xs[q], d in zs[q]), is the unsigned action of the table's INVERSE gate; nothing refused, nothing
@@ -95,3 +96,21 @@ Theorem C03_folded_mechanisms_keep_the_distribution :
 Proof. exact GenProofs_AddError.folded_mechanisms_keep_the_distribution. Qed.
 Print Assumptions C03_add_error_rule_is_merge. Print Assumptions C03_add_error_tail_rule_is_merge.
 Print Assumptions C03_folded_mechanisms_keep_the_distribution.
+
+(* The backward classes decompose MPP / SPP with the target list reversed: the reversed list is the same products in reverse order
+   with their terms reversed (render_rev), the decomposer's product splitter takes exactly the first written product (split_inter),
+   and a product with reversed terms has the same Pauli content; with C01's decomposition theorems (any target list) this gives
+   the backward treatment of Pauli-product measurements, last product first. *)
+Theorem C03_reversed_targets_are_reversed_products :
+  forall gs, rev (MppRev.render gs) = MppRev.render (rev (map (@rev Mpp.mtgt) gs)).
+Proof. exact MppRev.render_rev. Qed.
+Theorem C03_splitter_takes_the_first_written_product :
+  forall g rest, MppRev.good_group g -> (match rest with Mpp.MComb :: _ => False | _ => True end) ->
+  Mpp.split_group (MppRev.inter g ++ rest) = (g, rest).
+Proof. exact MppRev.split_inter. Qed.
+Theorem C03_reversed_product_same_content :
+  forall g a bits ar bitsr, Mpp.accumulate g Mpp.acc0 [] false = Some (a, bits) ->
+  Mpp.accumulate (rev g) Mpp.acc0 [] false = Some (ar, bitsr) -> forall q, Mpp.ax ar q = Mpp.ax a q /\ Mpp.az ar q = Mpp.az a q.
+Proof. exact MppRev.reversed_product_same_content. Qed.
+Print Assumptions C03_reversed_targets_are_reversed_products. Print Assumptions C03_splitter_takes_the_first_written_product.
+Print Assumptions C03_reversed_product_same_content.
